@@ -274,12 +274,26 @@ func modeSec(c *Ctx) {
 						tag = " [requirement has an alternative naming several schemes]"
 					}
 				}
+				// goag drops an alternative made of a scheme kind it does not support; the
+				// recorded finding is the requirement in which nothing is left after that
+				// (the operation becomes public). While a supported alternative remains,
+				// it is enforced like any other and nothing is excused.
+				everyAltUnsupported := len(req) > 0
+				unsup := ""
 				for _, alt := range req {
+					has := false
 					for _, k := range alt {
 						if !schemes[k].Supported() {
-							tag += " [requirement names an unsupported scheme kind: " + schemes[k].Type + "/" + schemes[k].Scheme + schemes[k].In + "]"
+							has = true
+							unsup += " [requirement names an unsupported scheme kind: " + schemes[k].Type + "/" + schemes[k].Scheme + schemes[k].In + "]"
 						}
 					}
+					if !has {
+						everyAltUnsupported = false
+					}
+				}
+				if everyAltUnsupported {
+					tag += unsup
 				}
 				var okAlts [][]string
 				for _, alt := range req {
